@@ -137,8 +137,18 @@ def localize(exe, lines, leaks, timeout, first, max_found=3, max_runs=40):
             runs += 1
             halves.append((part, run_batch(exe, [lines[i] for i in part], leaks, timeout)))
         bad = [(p, r) for p, r in halves if r[2] != 0]
-        if not bad:       # only the combination reports (state carried across cases, or schedule dependent): the group is the replay
-            found.append((idxs, kind, summary, out[-3000:]))
+        if not bad:
+            # neither half reports.  Either only the combination does (state carried across cases: deterministic, the group is the replay), or the
+            # report was a one-off of a loaded machine (a deadly signal without a sanitizer stack: out of memory, watchdog).  Run the group
+            # itself twice more: a report that comes back is judged, one that does not is inconclusive (kind 98: counted, listed, not judged)
+            runs += 2
+            again = [run_batch(exe, [lines[i] for i in idxs], leaks, timeout) for _ in range(2)]
+            rep = [a for a in again if a[2] != 0]
+            if rep:
+                found.append((idxs, rep[0][2], rep[0][3], rep[0][1][-3000:]))
+            else:
+                found.append((idxs, 98, 'a group of %d cases reported once (%s) and not again in 4 further runs (halves and whole): %s'
+                              % (len(idxs), KIND_NAMES.get(kind, kind), summary[:120]), out[-3000:]))
         todo = bad + todo
     return found
 
